@@ -78,6 +78,49 @@ func corpus(e *ev.Env) {
 			}
 		})
 	}
+	// request Cache-Control as a list: the directive first / middle / last, with and without the
+	// optional white space after the comma
+	for _, vs := range []bool{false, true} {
+		name := "cache-control-lists-memory"
+		if vs {
+			name = "cache-control-lists-vstore"
+		}
+		e.Corpus(name, func(c *ev.Case) {
+			cf := conf{Exp: 5, VStore: vs, StoreHdr: true}
+			st := []step{get("a", 100), get("a", 100)}
+			for _, v := range []string{"max-age=0,no-cache", "no-cache,max-age=0", "no-transform , no-cache", "only-if-cached,no-cache,max-age=0", "max-age=0, no-cache", "max-stale=5,\tno-cache"} {
+				st = append(st, step{Q: rq{Method: "GET", Key: "a", Status: 200, Size: 100, NoCache: true, CC: v}}, get("a", 100))
+			}
+			for i, v := range []string{"no-transform,no-store", "no-store,max-age=0", "max-age=0 ,no-store", "no-transform, no-store", "only-if-cached,no-store,min-fresh=1"} {
+				k := "s" + strconv.Itoa(i)
+				st = append(st, step{Q: rq{Method: "GET", Key: k, Status: 200, Size: 100, NoStore: true, CC: v}}, get(k, 100), get(k, 100))
+			}
+			runHistory(e, c, cf, st, false)
+		})
+	}
+	// one recycled RequestCtx: what the cache keeps of a response must not live in its buffers
+	for _, vs := range []bool{false, true} {
+		name := "reused-ctx-memory"
+		if vs {
+			name = "reused-ctx-vstore"
+		}
+		e.Corpus(name, func(c *ev.Case) {
+			cf := conf{Exp: 5, VStore: vs, StoreHdr: true, ReuseCtx: true, MaxBytes: 4096}
+			enc := func(k string, n int) step { return step{Q: rq{Method: "GET", Key: k, Status: 200, Size: n, Enc: true}} }
+			st := []step{enc("a", 300), enc("b", 20), enc("c", 700), enc("a", 1), enc("b", 1), enc("c", 1),
+				{Q: rq{Method: "GET", Key: "d", Status: 404, Size: 0, Enc: true}}, enc("a", 1), enc("d", 1), get("e", 50), enc("a", 1), enc("e", 1)}
+			g := runHistory(e, c, cf, st, false)
+			hits := 0
+			for _, q := range g.reqs {
+				if q.Mark == "hit" {
+					hits++
+				}
+			}
+			if hits < 6 {
+				e.Inconclusive("reused-ctx control produced too few hits")
+			}
+		})
+	}
 	// CacheInvalidator returns true for a key the external storage does not hold: manager.get
 	// hands out a zero item (heapidx 0), the middleware marks it expired and removes heap index 0.
 	e.Corpus("invalidator-absent-entry-empty-heap", func(c *ev.Case) {
